@@ -7,6 +7,13 @@ BodyKeyOf(r) == <<r.body, r.fmt, r.ext, BodyPart(r.m)>>
 TNext == /\ l <= Len(Tr) /\ l' = l + 1 /\ UNCHANGED m
          /\ LET r == Tr[l] IN
             IF r.e = "reset" THEN UNCHANGED oracle
+            ELSE IF r.e = "rebody" THEN
+                 \* the editor's flow: ONE engine whose text is edited (the block replaced, removed, added) between conversions -- the body it renders for the
+                 \* present text is the body a fresh conversion of that text gives; nothing of an earlier block lingers
+                 \* (r.fresh: the reference conversion of the same text by a new engine, recorded first)
+                 /\ ~r.null
+                 /\ (IF BodyKeyOf(r) \in DOMAIN oracle THEN oracle[BodyKeyOf(r)] = r.snip /\ UNCHANGED oracle
+                     ELSE r.fresh /\ oracle' = oracle @@ (BodyKeyOf(r) :> r.snip))
             ELSE /\ r.e = "wrap" /\ ~r.null
                  /\ r.occurs >= 1                                                       \* the snippet appears verbatim inside the complete rendering
                  /\ r.full_len > r.snip_len                                             \* ... which adds a header and a footer around it
